@@ -139,3 +139,22 @@ pub fn arg_list_u64(name: &str, default: &str) -> Vec<u64> {
         .map(|s| s.trim().parse().expect("int list"))
         .collect()
 }
+
+/// A loopback address with a port that was free a moment ago. When the machine is out of ephemeral ports (many
+/// short-lived connections in TIME_WAIT, other processes) this waits and tries again; after two minutes it gives up
+/// as a tool error - never as a crash, which a check would have to take for a failure of the code under test.
+pub fn free_addr() -> std::net::SocketAddr {
+    let start = std::time::Instant::now();
+    loop {
+        match std::net::TcpListener::bind("127.0.0.1:0").and_then(|l| l.local_addr()) {
+            Ok(a) => return a,
+            Err(e) => {
+                if start.elapsed() > std::time::Duration::from_secs(120) {
+                    eprintln!("tool error: no loopback port available: {e}");
+                    std::process::exit(2);
+                }
+                std::thread::sleep(std::time::Duration::from_millis(200));
+            },
+        }
+    }
+}
